@@ -6,34 +6,29 @@ import Irismod.Proofs.FarmEndBlock
 namespace Irismod.Proofs.Farm
 open Irismod Irismod.Sdk Irismod.Farm Irismod.Spec
 
-/-- no operation of the history falls into the F-farm-2 class at the state it is applied to -/
-def Clean : State → List Op → Prop
-  | _, [] => True
-  | s, op :: ops => ¬ C06.EndTopUp s op ∧ Clean (apply s op) ops
-
 theorem inv_stepMsg {s s' : State} {op : Op} (hi : Inv s) (hu : isModuleAcc op.sender = false)
-    (hx : ¬ C06.EndTopUp s op) (h : stepMsg s op = .ok s') : Inv s' := by
+    (h : stepMsg s op = .ok s') : Inv s' := by
   cases op with
   | createPool sender desc lpt start rpb total editable => exact inv_createPool hi hu h
   | destroyPool sender id => exact inv_destroyPool hi h
-  | adjustPool sender id add rpb => exact inv_adjustPool hi hu hx h
+  | adjustPool sender id add rpb => exact inv_adjustPool hi hu h
   | stake sender id denom amt => exact inv_stake hi hu h
   | unstake sender id denom amt => exact inv_unstake hi hu h
   | harvest sender id => exact inv_harvest hi hu h
   | endBlocks n => simp [stepMsg] at h; subst h; exact hi
 
-/-- one operation outside the F-farm-2 class keeps the bundle -/
-theorem inv_apply (s : State) (op : Op) (hi : Inv s) (hx : ¬ C06.EndTopUp s op) : Inv (apply s op) := by
+/-- every operation keeps the bundle -/
+theorem inv_apply (s : State) (op : Op) (hi : Inv s) : Inv (apply s op) := by
   rcases apply_cases s op with ⟨n, _, h⟩ | h | ⟨h, hu, _⟩
   · rw [h]; exact endBlocks_inv n hi
   · rw [h]; exact hi
-  · exact inv_stepMsg hi hu hx h
+  · exact inv_stepMsg hi hu h
 
-theorem inv_run : ∀ (ops : List Op) (s : State), Inv s → Clean s ops → Inv (run s ops)
-  | [], _, hi, _ => hi
-  | op :: ops, s, hi, hc => by
+theorem inv_run : ∀ (ops : List Op) (s : State), Inv s → Inv (run s ops)
+  | [], _, hi => hi
+  | op :: ops, s, hi => by
     show Inv (run (apply s op) ops)
-    exact inv_run ops _ (inv_apply s op hi hc.1) hc.2
+    exact inv_run ops _ (inv_apply s op hi)
 
 theorem inv_genesis {s : State} (hg : C05.Genesis s) (hh : 0 ≤ s.height) : Inv s := by
   obtain ⟨hp, hf, hq, _, _, hb, _⟩ := hg
